@@ -66,6 +66,10 @@ func ResponseFromReader(r io.Reader) (*Response, error) {
 	if err != nil {
 		return nil, err
 	}
+	// Only one JSON object is expected: do not trust a response followed by other data.
+	if _, err := dec.Token(); err != io.EOF {
+		return nil, fmt.Errorf("unexpected data after the response object")
+	}
 
 	return response, nil
 }
